@@ -249,14 +249,14 @@ def run(prop, tier, check=None):
     mc_fail = []
     mc_scenarios = [s for s in scenarios if not s.get("no_mc") and (tier != "quick" or not s.get("large"))]
     check.cov["model_checked_scenarios"] = [s["name"] for s in mc_scenarios]
-    # thorough: at most 20 min per scenario and 80 min for the whole phase (what does not fit is listed under
+    # thorough: at most 15 min per scenario and 45 min for starting new ones (what does not fit is listed under
     # model_check_timeouts and is still run on the real code and monitored below)
-    budget_end = t0 + (900 if tier == "quick" else 4800)
+    budget_end = t0 + (900 if tier == "quick" else 2700)
 
     def mc_job(s):
         if time.time() > budget_end:
             raise ToolError("timeout: model-checking budget of the tier is used up")
-        return model_check(dict(s, defects=[]), prop, 3, 240 if tier == "quick" else 1200)
+        return model_check(dict(s, defects=[]), prop, 3, 240 if tier == "quick" else 900)
     mc_scenarios.sort(key=lambda s: (bool(s.get("large")), s["name"]))
     with cf.ThreadPoolExecutor(max_workers=5) as ex:
         futs = {ex.submit(mc_job, s): s for s in mc_scenarios}
@@ -300,7 +300,7 @@ def run(prop, tier, check=None):
     table, entry = batch_scripts(scenarios)
     scriptsfile = os.path.join(WORK, "scripts_%s_%d.json" % (prop, os.getpid()))      # (per process: checks may run side by side)
     json.dump({"scripts": table, "defects": CODE_DEFECTS}, open(scriptsfile, "w"))
-    nsched = 150 if tier == "quick" else 1500
+    nsched = 150 if tier == "quick" else 900
     nws = [1, 2, 3, 4, 2, 3]
     reqs = make_requests(scenarios, entry, nsched, seed, nws, keep=8 if tier == "quick" else 40,
                          rare_max=6 if tier == "quick" else 20)
